@@ -164,8 +164,9 @@ Rehash(i, n, s, K, resync) ==
   /\ UNCHANGED mf
 
 \* copy construction / copy assignment  d = src
+\* d = src is the self copy assignment  c = c : contents unchanged (the chain is rebuilt like for any copy)
 Copy(d, src, s, K, resync) ==
-  /\ d # src /\ ~mf[src]
+  /\ ~mf[src]
   /\ ch' = [ch EXCEPT ![d] = Single(s, K)]
   /\ st' = [st EXCEPT ![d] = Restrict(st[src], K)]
   /\ ref' = [ref EXCEPT ![d] = IF resync THEN Restrict(ref[src], K) ELSE ref[src]]
@@ -174,11 +175,15 @@ Copy(d, src, s, K, resync) ==
 
 \* d = std::move(src): implemented as swap; the source is afterwards "valid but unspecified"
 MoveAssign(d, src) ==
-  /\ d # src /\ ~mf[src]
-  /\ ch' = [ch EXCEPT ![d] = ch[src], ![src] = ch[d]]
-  /\ st' = [st EXCEPT ![d] = st[src], ![src] = st[d]]
-  /\ ref' = [ref EXCEPT ![d] = ref[src], ![src] = ref[d]]
-  /\ mf' = [mf EXCEPT ![d] = FALSE, ![src] = TRUE]
+  /\ ~mf[src]
+  /\ IF d = src
+     THEN \* self move assignment: implemented as swap with itself; "valid but unspecified" -> nothing is claimed afterwards
+          /\ mf' = [mf EXCEPT ![d] = TRUE]
+          /\ UNCHANGED <<ch, st, ref>>
+     ELSE /\ ch' = [ch EXCEPT ![d] = ch[src], ![src] = ch[d]]
+          /\ st' = [st EXCEPT ![d] = st[src], ![src] = st[d]]
+          /\ ref' = [ref EXCEPT ![d] = ref[src], ![src] = ref[d]]
+          /\ mf' = [mf EXCEPT ![d] = FALSE, ![src] = TRUE]
   /\ ev' = "V " \o T(d) \o " " \o T(src)
 
 \* destroy d, construct it from std::move(src)
@@ -190,8 +195,8 @@ MoveCtor(d, src) ==
   /\ mf' = [mf EXCEPT ![d] = FALSE, ![src] = TRUE]
   /\ ev' = "W " \o T(d) \o " " \o T(src)
 
+\* a = b is the self swap: everything unchanged
 Swap(a, b) ==
-  /\ a # b
   /\ ch' = [ch EXCEPT ![a] = ch[b], ![b] = ch[a]]
   /\ st' = [st EXCEPT ![a] = st[b], ![b] = st[a]]
   /\ ref' = [ref EXCEPT ![a] = ref[b], ![b] = ref[a]]
